@@ -143,15 +143,28 @@ def run(chk, arch, unit, api_unit, rule="R-NAME-INDEX"):
     ncalls = 0
     for fn in cfg.load_functions(fa):
         for i, x in fn.calls(lambda x: x.get("callee", "").startswith("asmjit::InstNameUtils::")):
-            glob = []
-            for a in x["args"]:
-                g = None
+            inits = {}
+            for d in fn.ex.values():
+                if d["k"] == "decl":
+                    for v in d["vars"]:
+                        if v.get("init"):
+                            inits[v["did"]] = v["init"]
+
+            def table_of(a, depth=0):
                 for j in fn.walk(a):
                     y = fn.e(j)
                     if y["k"] == "ref" and y.get("dk") == "global" and "InstDB::" in y.get("qn", ""):
-                        g = y["qn"].split("::")[-1]
-                        break
-                glob.append(g)
+                        return y["qn"].split("::")[-1]
+                if depth < 3:
+                    # an element that was first copied into a local (`uint32_t v = table[i]; decode(v, ...)`)
+                    for j in fn.walk(a):
+                        y = fn.e(j)
+                        if y["k"] == "ref" and y.get("dk") == "local" and y.get("did") in inits:
+                            g = table_of(inits[y["did"]], depth + 1)
+                            if g:
+                                return g
+                return None
+            glob = [table_of(a) for a in x["args"]]
             tabs = [g for g in glob if g and ("index_table" in g or "string_table" in g)]
             fam = {"alias" if g.startswith("alias_") else "inst" for g in tabs}
             ncalls += 1
@@ -160,4 +173,44 @@ def run(chk, arch, unit, api_unit, rule="R-NAME-INDEX"):
             chk.ob(R2, "%s|%s|%s" % (arch, fn.name.split("::")[-1], x["cn"]), ok, loc=fn.loc(i),
                    detail="%s(%s): tables of different families (or not the %s family) are passed together" % (x["cn"], ", ".join(str(g) for g in glob), want))
     chk.floor(R2 + ":%s-calls" % arch, ncalls, 2)
+
+    # (5) a linear-scan reader examines every id
+    R3 = "R-SCAN-COMPLETE"
+    scanned = 0
+    for fn in cfg.load_functions(fa):
+        if not fn.name.endswith("string_to_inst_id"):
+            continue
+        decs = [i for i, x in fn.calls(lambda x: x.get("callee", "").endswith("InstNameUtils::decode"))]
+        incs = [i for i, x in fn.ex.items() if x["k"] == "unop" and x["op"] in ("++", "post++", "pre++") or (x["k"] == "unop" and "++" in x.get("op", ""))]
+        if not decs or not incs:
+            continue
+        chk.rule(R3, "a name reader that scans the ids linearly decodes every candidate: on every path through the loop body the decode call "
+                     "is executed before the loop variable advances (no id is skipped by a shortcut before its name was looked at)")
+        from .must import Must
+
+        def elem_fx(eid, x, fn=fn, decs=decs):
+            if eid in decs:
+                return ((("decoded",),), ())
+            if x["k"] == "binop" and x["op"] in ("<", "<=", "!=") and eid in loop_conds:
+                return ((), (("decoded",),))
+            return None
+        # loop conditions: comparisons evaluated in a block that has a back edge predecessor
+        loop_conds = set()
+        rpo = {b: k for k, b in enumerate(fn.rpo())}
+        for b, blk in fn.blocks.items():
+            if any(p in rpo and b in rpo and rpo[p] >= rpo[b] for p in fn.preds.get(b, [])):
+                for el in blk["elems"]:
+                    if isinstance(el, int) and fn.e(el) and fn.e(el)["k"] == "binop" and fn.e(el)["op"] in ("<", "<=", "!="):
+                        loop_conds.add(el)
+        m = Must(fn, elem_fx, None)
+        for inc in incs:
+            st = m.before(inc)
+            if st is None:
+                continue
+            scanned += 1
+            chk.ob(R3, "%s|%s|advance@%s" % (arch, fn.name.split("::")[-1], " ".join(fn.text(inc).split())[:20]), ("decoded",) in st, loc=fn.loc(inc),
+                   detail="the scan advances to the next id on a path that never decoded the current one: ids whose name is stored in the skipped "
+                          "form can no longer be found by name")
+    if arch == "a64":
+        chk.floor(R3 + ":a64-loops", scanned, 1)
     return decoded
